@@ -505,7 +505,7 @@ func c14Exec(c *c14Case) ([]Discrepancy, []string) {
 	defer cl.Close()
 	// initial topology on nodes 0..k-1
 	ts := c.Init
-	topo := &fakecluster.Topo{AddrForm: ts.AddrForm}
+	topo := &fakecluster.Topo{AddrForm: ts.AddrForm, Rotate: ts.Rotate, Reverse: ts.Reverse}
 	mN := len(ts.Reps)
 	for i := 0; i < mN; i++ {
 		n := fakecluster.TNode{ID: cl.Nodes[i].ID, Node: i, Master: true}
